@@ -94,11 +94,11 @@ def ob_scenario(tier, scenario):
         return dict(res, verdict="discharged")
     if out["verdict"] != "sat":
         return dict(res, verdict="inconclusive", reason=out.get("reason", out["verdict"]))
-    rep = sched.replay(scenario, out["schedule"], programs)
+    rep = sched.replay(scenario, out["schedule"], programs, results)
     tries = 0
     # the solver's schedule is one of many with the same hazard: also try the canonical "stop the first load before its read" schedules
     while not rep["reproduced"] and tries < 6:
-        rep = sched.replay(scenario, _variant(programs, out["schedule"], tries), programs)
+        rep = sched.replay(scenario, _variant(programs, out["schedule"], tries), programs, results)
         tries += 1
     res["cex"] = {"hazards": out.get("hazards"), "schedule": [f"{i}:{' '.join(map(str, programs[i][k]))}" for i, k in out["schedule"]][:40], "replay": rep}
     if rep["reproduced"]:
